@@ -11,7 +11,7 @@
    all data, paths and ids: the stitching layer neither loses, misplaces nor duplicates. *)
 From Coq Require Import String List Bool ZArith.
 From GW Require Import Base.Res Base.GoStr Base.Json Gql.Syntax Gql.Spec Gw.Points Gw.FedCheck
-     Gw.Locate Gw.Plan Proofs.CodecProofs Proofs.PointsProofs Proofs.FindProofs Proofs.PlanProofs Proofs.PlanCount Proofs.StitchSound Proofs.JoinSound Proofs.GroupSound.
+     Gw.Locate Gw.Plan Proofs.CodecProofs Proofs.PointsProofs Proofs.FindProofs Proofs.PlanProofs Proofs.PlanCount Proofs.StitchSound Proofs.JoinSound Proofs.GroupSound Proofs.StepJoin Proofs.StepPoints.
 Import ListNotations.
 Open Scope string_scope.
 Open Scope list_scope.
@@ -166,3 +166,61 @@ Theorem C01_grouping_is_transparent : forall w frags vars,
                exec (S (S fuel)) w frags vars o rt sels = JObj m' /\ Permutation.Permutation m m'.
 Proof. intros w frags vars Hw. exact (grouping_is_transparent w frags vars Hw). Qed.
 Print Assumptions C01_grouping_is_transparent.
+
+(* One dependent step over all its points.  The points of a step pairwise part ways and each
+   holds the parent's answer (l1 and the join id) for an object named by its own id.  Then the
+   executor's visits -- read the id, ask node(id) for l2, stitch -- all succeed, and afterwards
+   every point holds the reference answer to l1, id and l2 together for its own object: a visit
+   changes nothing at the other points. *)
+Theorem C01_one_step_joins_every_point : forall w frags vars,
+  (forall o rt c, atomic_f (resolve w vars o rt c)) ->
+  forall l1 l2, good (l1 ++ [id_sel]) -> good l2 -> compat (l1 ++ [id_sel]) l2 ->
+  forall fuel ps os acc,
+  ForallOrdPairs diverge ps -> Forall2 (holds_parent w frags vars l1 fuel acc) ps os ->
+  exists acc', join_all w frags vars l2 fuel ps acc = Ok acc' /\
+               Forall2 (holds_joined w frags vars l1 l2 fuel acc') ps os.
+Proof. intros w frags vars Hw l1 l2 G1 G2 C fuel. exact (step_is_sound_and_total w frags vars Hw l1 l2 G1 G2 C fuel). Qed.
+Print Assumptions C01_one_step_joins_every_point.
+
+(* From the parent's answer to the stitched result, below a list field.  The parent answered the
+   list field k (a key without ':' or '#') with l1 and the join id, for fewer than 2^63 objects
+   each named by its own id.  executorFindInsertionPoints returns one point "k:<i>#<id>" per
+   element, the step's visits succeed, and afterwards every element holds the reference answer
+   to l1, id and l2 together. *)
+Theorem C01_step_below_a_list_field : forall w frags vars,
+  (forall o rt c, atomic_f (resolve w vars o rt c)) ->
+  forall l1 l2, good (l1 ++ [id_sel]) -> good l2 -> compat (l1 ++ [id_sel]) l2 ->
+  forall fuel k, clean_key k -> k <> "" ->
+  forall po rt args os nonnull subf,
+  resolve w vars po rt (to_c (Field "" k args [] (l1 ++ [id_sel]))) = FList (map (fun o => FRef (b_id o)) os) ->
+  Forall (fun o => find_obj (b_id o) (w_objs w) = Some o) os ->
+  (Z.of_nat (length os) <= int64_max)%Z ->
+  exists m ps acc',
+    exec (S (S (S fuel))) w frags vars po rt [Field "" k args [] (l1 ++ [id_sel])] = JObj m /\
+    find_insertion_points [k] [FS k true nonnull subf] m [] = Ok ps /\
+    length ps = length os /\
+    join_all w frags vars l2 fuel ps (JObj m) = Ok acc' /\
+    Forall2 (holds_joined w frags vars l1 l2 fuel acc') ps os.
+Proof.
+  intros w frags vars Hw l1 l2 G1 G2 C fuel k Hk Hne po rt args os nonnull subf.
+  exact (list_field_step_sound w frags vars Hw l1 l2 G1 G2 C fuel k Hk po rt args os nonnull subf Hne).
+Qed.
+Print Assumptions C01_step_below_a_list_field.
+
+(* ... and below a field that answers one object: the point is "k#<id>" *)
+Theorem C01_step_below_an_object_field : forall w frags vars,
+  (forall o rt c, atomic_f (resolve w vars o rt c)) ->
+  forall l1 l2, good (l1 ++ [id_sel]) -> good l2 -> compat (l1 ++ [id_sel]) l2 ->
+  forall fuel k, clean_key k -> k <> "" ->
+  forall m o nonnull subf,
+  jget k m = Some (exec (S (S fuel)) w frags vars (Some o) (b_type o) (l1 ++ [id_sel])) ->
+  find_obj (b_id o) (w_objs w) = Some o ->
+  exists acc',
+    find_insertion_points [k] [FS k false nonnull subf] m [] = Ok [[with_id k (b_id o)]] /\
+    join_all w frags vars l2 fuel [[with_id k (b_id o)]] (JObj m) = Ok acc' /\
+    holds_joined w frags vars l1 l2 fuel acc' [with_id k (b_id o)] o.
+Proof.
+  intros w frags vars Hw l1 l2 G1 G2 C fuel k Hk Hne m o nonnull subf.
+  exact (object_step_sound w frags vars Hw l1 l2 G1 G2 C fuel k Hk m o nonnull subf Hne).
+Qed.
+Print Assumptions C01_step_below_an_object_field.
